@@ -181,3 +181,46 @@ def loadDurations (nan : V) (raw : List ((Nat → V) → V)) (dds : List (List N
     | some keep => fun env => f (maskEnv nan keep env)
 
 end PymocaVerif.CacheMeta
+
+/-! ## Attribute expressions and the dependency classification
+
+`save_model` classifies an `MX` attribute as `MX_DEPENDENT` when
+`not attr.is_constant() and ca.depends_on(attr, parameter_vector)`, else `MX_INDEPENDENT`.
+Here: attribute expressions over the parameters (`+ - * unary-` and constants), values in
+`Option Int` where `none` is NaN (absorbing), and the syntactic occurrence test. -/
+namespace PymocaVerif.CacheMeta
+
+inductive PExpr
+  | const (v : Int)
+  | nan
+  | param (k : Nat)
+  | neg (a : PExpr)
+  | add (a b : PExpr)
+  | sub (a b : PExpr)
+  | mul (a b : PExpr)
+  deriving Repr
+
+def PExpr.eval (env : Nat → Option Int) : PExpr → Option Int
+  | .const v => some v
+  | .nan => none
+  | .param k => env k
+  | .neg a => (a.eval env).map (fun x => -x)
+  | .add a b => do let x ← a.eval env; let y ← b.eval env; pure (x + y)
+  | .sub a b => do let x ← a.eval env; let y ← b.eval env; pure (x - y)
+  | .mul a b => do let x ← a.eval env; let y ← b.eval env; pure (x * y)
+
+/-- does a parameter symbol occur (`depends_on`; a constant expression has none) -/
+def PExpr.hasParam : PExpr → Bool
+  | .const _ => false
+  | .nan => false
+  | .param _ => true
+  | .neg a => a.hasParam
+  | .add a b => a.hasParam || b.hasParam
+  | .sub a b => a.hasParam || b.hasParam
+  | .mul a b => a.hasParam || b.hasParam
+
+/-- The attribute of the fresh model given by element expressions, classified as `save_model` does. -/
+def Attr.ofExprs {P : Type} (es : List PExpr) : Attr P (Nat → Option Int) (Option Int) :=
+  .mx (es.any PExpr.hasParam) (fun env => es.map (PExpr.eval env))
+
+end PymocaVerif.CacheMeta
